@@ -26,6 +26,9 @@ def main():
     r = sh('git -C /repo worktree add --detach %s HEAD' % SCR)
     assert r.returncode == 0, r.stderr
     os.makedirs(SWORK, exist_ok=True)
+    if not os.path.exists(os.path.join(SCR, 'Cargo.lock')) and os.path.exists('/repo/Cargo.lock'):
+        # Cargo.lock is not tracked in /repo's git: a fresh worktree lacks it until cargo recreates it; the pinned-dependency check reads it
+        sh('cp /repo/Cargo.lock %s/' % SCR)
     r = sh("rsync -a --delete --exclude .work --exclude .git --exclude seeded --exclude refactorings --exclude evidence "
            "--exclude __pycache__ --exclude 'engine/harness/suites/target' --exclude 'engine/fixtures/target' /verif/ %s/" % SNAP)
     assert r.returncode == 0, r.stderr
